@@ -32,6 +32,7 @@ type world1 struct {
 	unknown ref.Key // never authorized
 	others  []ref.Key
 	srvKey  ref.Key
+	held    [][]byte // datagrams the server accepted in this case (it holds their reports)
 }
 
 // buildWorld starts a stepped server whose window starts at week k, registers
@@ -104,7 +105,7 @@ func (w *world1) genDatagram(t *rapid.T) dgram {
 		r := ref.Report{ShortID: id, Timeslot: drawSlot(t, s.now, s.M.Offset, "slot"), Power: drawPower(t, capacity, "power")}
 		return r, key
 	}
-	switch c := rapid.IntRange(0, 15).Draw(t, "dgClass"); c {
+	switch c := rapid.IntRange(0, 16).Draw(t, "dgClass"); c {
 	case 0: // random bytes
 		n := rapid.IntRange(0, 200).Draw(t, "len")
 		return dgram{b: rapid.SliceOfN(rapid.Byte(), n, n).Draw(t, "bytes"), class: "random-bytes"}
@@ -225,6 +226,21 @@ func (w *world1) genDatagram(t *rapid.T) dgram {
 		r, key := wellFormed()
 		r.Sig = ref.HighSTwin(ref.Sign(key, r.SigningBytes()))
 		return dgram{b: r.Encode(), class: "signature-twin"}
+	case 15: // a copy of a report the server already HOLDS with the value (or the slot) altered and the
+		// signature kept: it is not what the device signed, whatever the server remembers about that signature
+		if len(w.held) == 0 {
+			r, key := wellFormed()
+			r.Sig = ref.Sign(key, r.SigningBytes())
+			return dgram{b: r.Encode(), class: "well-formed"}
+		}
+		b := append([]byte(nil), w.held[rapid.IntRange(0, len(w.held)-1).Draw(t, "heldIdx")]...)
+		if rapid.IntRange(0, 3).Draw(t, "alterSlot") == 0 {
+			b[4] ^= byte(rapid.IntRange(1, 255).Draw(t, "slotXor"))
+		} else {
+			pos := 8 + rapid.IntRange(0, 7).Draw(t, "powerByte")
+			b[pos] ^= byte(rapid.IntRange(1, 255).Draw(t, "powerXor"))
+		}
+		return dgram{b: b, class: "altered-copy-of-held-report"}
 	default: // valid report with trailing bytes (judged by its leading 80 bytes)
 		r, key := wellFormed()
 		r.Sig = ref.Sign(key, r.SigningBytes())
@@ -303,6 +319,7 @@ func TestC01Datagrams(t *testing.T) {
 			ev.Eval(1)
 			ev.Label("c01:class-" + d.class)
 			if v.Accept {
+				w.held = append(w.held, append([]byte(nil), d.b[:80]...))
 				ev.Label("c01:accepted")
 			} else {
 				ev.Label("c01:rejected-" + v.Reason)
